@@ -45,6 +45,16 @@ void Precedence::bvisit(const Pow &x)
     precedence = PrecedenceEnum::Pow;
 }
 
+void Precedence::bvisit(const Infty &x)
+{
+    // -oo prints with a leading minus sign, like a negative Integer
+    if (x.is_negative_infinity()) {
+        precedence = PrecedenceEnum::Mul;
+    } else {
+        precedence = PrecedenceEnum::Atom;
+    }
+}
+
 void Precedence::bvisit(const GaloisField &x)
 {
     // iterators need to be implemented
